@@ -160,7 +160,7 @@ def tri(f):
         return "r"
 
 
-def gen_dep_type(rng, ew, key_cls, depth=1, allow_combo=True):
+def gen_dep_type(rng, ew, key_cls, depth=2, allow_combo=True, force_combo=False):
     """a declared type applicable (at type level) to run-time class `key_cls`"""
     w = ew.w
     supers = [c for c in range(w.n) if w.tables_cache["sub"][key_cls][c]]
@@ -171,6 +171,8 @@ def gen_dep_type(rng, ew, key_cls, depth=1, allow_combo=True):
         k = rng.choice(pk)
         bound = ["pred", 9000 + k, k]
     r = rng.random()
+    if force_combo and depth > 0:
+        r = 0.85  # a Union / Intersection, with a nested one inside more often than not
     vals_here = [i for i, v in enumerate(POOL) if type(v) is w.classes[key_cls]]
     if r < 0.4 and vals_here:
         n = rng.choice([1, 1, 1, 2, 3])
@@ -196,7 +198,7 @@ def gen_dep_type(rng, ew, key_cls, depth=1, allow_combo=True):
     if r < 0.9 and allow_combo and depth > 0:
         k = rng.choice(["union", "inter"])
         other_cls = rng.choice([C_INT, C_STR, C_DICT, C_LIST, key_cls, key_cls])
-        members = [gen_dep_type(rng, ew, key_cls, depth - 1, allow_combo=rng.random() < 0.3)]
+        members = [gen_dep_type(rng, ew, key_cls, depth - 1, allow_combo=force_combo or rng.random() < 0.5, force_combo=force_combo and rng.random() < 0.7)]
         m2 = gen_dep_type(rng, ew, other_cls, depth - 1, allow_combo=False) if rng.random() < 0.7 else ["cls", rng.choice(supers)]
         if k == "inter" and m2[0] != "cls" and other_cls != key_cls:
             m2 = gen_dep_type(rng, ew, key_cls, depth - 1, allow_combo=False)
@@ -225,7 +227,7 @@ def gen_scenario(rng, steer=None):
     w = make_world(rng, nuser=rng.randint(1, 3))
     w.tables_cache = w.tables()
     ew = EWorld(w, rng)
-    nslots = rng.choice([1, 1, 1, 2])
+    nslots = rng.choice([1, 1, 2])
     key_classes = []
     for _ in range(nslots):
         key_classes.append(rng.choice([C_INT, C_INT, C_BOOL, C_STR, C_STR, C_TUPLE, C_DICT, C_LIST] + list(range(NBUILTIN, w.n))))
@@ -236,11 +238,21 @@ def gen_scenario(rng, steer=None):
         dep_seen = False
         for s in range(nslots):
             if rng.random() < (0.85 if not dep_seen else 0.3):
-                t = gen_applicable_type(rng, ew, key_classes[s])
+                t = gen_applicable_type(rng, ew, key_classes[s], force_combo=(steer == "combos" and rng.random() < 0.7))
                 dep_seen = dep_seen or t[0] != "cls"
             else:
                 supers = [c for c in range(w.n) if w.tables_cache["sub"][key_classes[s]][c]]
                 t = ["cls", rng.choice(supers)]
+            if s > 0 and rng.random() < 0.5:
+                # the very same annotation on two positions whose run-time types may differ
+                from ovld.mro import subclasscheck as _sc
+
+                t0 = types[0][2]
+                try:
+                    if _sc(w.classes[key_classes[s]], ew.ty(t0)):
+                        t = t0
+                except Exception:  # noqa
+                    pass
             types.append(["p", s, t])
         if not any(x[2][0] != "cls" for x in types) and i == 0:
             types[0][2] = gen_applicable_type(rng, ew, key_classes[0], allow_combo=False)
@@ -266,11 +278,22 @@ def gen_scenario(rng, steer=None):
         if rng.random() < 0.4:
             handlers.append({"id": len(handlers), "types": [["p", 0, ["lit", [4 if rng.random() < 0.5 else 1], ["cls", C_INT]]]]})
         nslots = 1
+        if rng.random() < 0.3:
+            # Literals of several value types are bounded by `object`: any value reaches the dispatcher, including
+            # unhashable ones on the lookup-table path
+            key_classes = [C_OBJECT]
+            strs = [i for i, v in enumerate(POOL) if isinstance(v, str)]
+            for h in handlers:
+                vs = h["types"][0][2][1] + ([rng.choice(strs)] if rng.random() < 0.5 else [])
+                h["types"][0][2] = ["lit", vs, ["cls", C_OBJECT]]
     calls = []
     for _ in range(rng.randint(3, 8)):
         args = []
         for s in range(nslots):
             c = key_classes[s]
+            if c == C_OBJECT and steer == "literals":
+                args.append(rng.choice(POOL))
+                continue
             cands = [v for v in ew.values if type(v) is w.classes[c]]
             if not cands:
                 cands = [v for v in ew.values if isinstance(v, w.classes[c])] or [0]
